@@ -132,12 +132,18 @@ func VerifC04InFlightConservation() {
 	u1 := verifAmt("user1.balance", 100)
 	e.bank.SetBalance(verifUser1, verifBase, u1)
 	e.bank.SetBalance(module, e.bridgeDenom, u1) // escrow == base supply
-	amounts := [2]sdkmath.Int{verifAmt("amount1", 64), verifAmt("amount2", 64)}
-	fees := [2]sdkmath.Int{verifSmallFee("fee1"), verifSmallFee("fee2")}
-	rt.Assume(rt.And(amounts[0].IsPositive(), amounts[1].IsPositive()))
-	rt.Assume(u1.GTE(amounts[0].Add(amounts[1]).Add(fees[0]).Add(fees[1])))
+	nSends := rt.Bound("sends", 2, 3)
+	var amounts, fees []sdkmath.Int
+	need := sdkmath.ZeroInt()
+	for i := 0; i < nSends; i++ {
+		amounts = append(amounts, verifAmt([]string{"amount1", "amount2", "amount3"}[i], 64))
+		fees = append(fees, verifSmallFee([]string{"fee1", "fee2", "fee3"}[i]))
+		rt.Assume(amounts[i].IsPositive())
+		need = need.Add(amounts[i]).Add(fees[i])
+	}
+	rt.Assume(u1.GTE(need))
 	e.store().Set(types.KeyLastTxPoolID, sdk.Uint64ToBigEndian(1))
-	for i := 0; i < 2; i++ {
+	for i := 0; i < nSends; i++ {
 		if _, err := e.k.AddToOutgoingPool(e.ctx, verifUser1, verifAddrB, sdk.NewCoin(verifBase, amounts[i]), sdk.NewCoin(verifBase, fees[i])); err != nil {
 			rt.Assert(false, "a send of up to the holder's balance is never refused")
 			return
@@ -147,7 +153,7 @@ func VerifC04InFlightConservation() {
 	hold := func() sdkmath.Int { return e.bank.Balance(verifUser1, verifBase) }
 	rt.Assert(hold().Add(e.inFlight()).Equal(u1), "holdings + in flight == initial holdings after the sends")
 
-	maxEl := uint(1 + rt.Choose("maxElements", 2))
+	maxEl := uint(1 + rt.Choose("maxElements", nSends))
 	baseFee := sdkmath.NewInt([]int64{0, 3}[rt.Choose("baseFee", 2)])
 	held := hold()
 	executed := sdkmath.ZeroInt()
@@ -170,7 +176,7 @@ func VerifC04InFlightConservation() {
 		rt.Assert(rt.And(hold().Equal(held), held.Add(e.inFlight()).Equal(u1.Sub(executed))), "holdings + in flight == initial - executed")
 	}
 	// whatever was not executed is still owed to its creator and can be taken back in full
-	for id := uint64(1); id <= 2; id++ {
+	for id := uint64(1); id <= uint64(nSends); id++ {
 		if _, gerr := e.k.GetUnbatchedTxById(e.ctx, id); gerr == nil {
 			if _, rerr := e.k.RemoveFromOutgoingPoolAndRefund(e.ctx, id, verifUser1); rerr != nil {
 				rt.Assert(false, "a pooled transfer can be cancelled by its creator")
